@@ -101,10 +101,12 @@ def build(d, inp):
         vanish = inp.get('vanish', 'some')
         if vanish == 'some':                      # a few spikes whose positive part vanishes / has a single channel
             pcf[0, 0, :] = -np.abs(pcf[0, 0, :])
-            pcf[ns - 1, 0, :] = 0.0
             if ns > 2:
                 pcf[1, 0, :] = -1.0
                 pcf[1, 0, 1] = 2.0
+            if ns > 3:                            # never the last spike: it must keep a defined depth
+                pcf[2, 0, :] = 0.0
+            pcf[ns - 1, 0, 0] = 1.5
         elif vanish == 'all':
             pcf[:, 0, :] = -np.abs(pcf[:, 0, :])
         np.save(os.path.join(d, 'pc_features.npy'), pcf)
